@@ -51,10 +51,13 @@ def flags (c : Ctx) (T : Trace) (j k v : Nat) (concl : Bool) : List Sexp :=
    kv "postfix" (b c.pfix), kv "path" (b (isPathB c.D.graph.edges c.V T)), kv "gen" (b (rdGenOK c.D T)),
    kv "for_target" (b (forTargetKilledUnwritten c.D T j k v)), kv "other_kill" (b (otherKillUnwritten c.D T j k v))]
 
-def readQuery (c : Ctx) (T : Trace) (k v : Nat) : Sexp :=
+def readQuery (c : Ctx) (T : Trace) (k v : Nat) (anno : Option (List Def)) : Sexp :=
   match findWriter T k v with
   | none => .list [.atom "nowriter", .atom (noWriterReason T k v)]
-  | some j => .list (.atom "read" :: flags c T j k v ((c.IN (T.nodeAt k)).contains (v, T.nodeAt j)))
+  | some j => .list (.atom "read" :: flags c T j k v ((c.IN (T.nodeAt k)).contains (v, T.nodeAt j)) ++
+      (match anno with
+       | some ds => [kv "anno_at_eval" (b (nameDefsAtEval c.IN { id := 0, var := v, isLoad := true, cfg := T.nodeAt k, defs := ds } (T.nodeAt k)))]
+       | none => []))
 
 def entryQuery (c : Ctx) (T : Trace) (k sid v : Nat) : Sexp :=
   match findWriter T k v, c.stmts.find? (fun s => s.id == sid) with
@@ -88,8 +91,11 @@ def tally (c : Ctx) (T : Trace) : Sexp :=
 def query (c : Ctx) (T : Trace) (q : Sexp) : Sexp :=
   match q with
   | .list [.atom "read", k, v] => match k.nat?, v.nat? with
-    | some k, some v => readQuery c T k v
+    | some k, some v => readQuery c T k v none
     | _, _ => .atom "bad-query"
+  | .list [.atom "read", k, v, ds] => match k.nat?, v.nat?, pairs? ds with
+    | some k, some v, some ds => readQuery c T k v (some ds)
+    | _, _, _ => .atom "bad-query"
   | .list [.atom "entry", k, s, v] => match k.nat?, s.nat?, v.nat? with
     | some k, some s, some v => entryQuery c T k s v
     | _, _, _ => .atom "bad-query"
